@@ -318,6 +318,12 @@ func (repo *Repository) ProcessHeader(ctx context.Context, header *wire.BlockHea
 	repo.Lock()
 	defer repo.Unlock()
 
+	// A compact target with a size below the 3 mantissa bytes can't be converted to a difficulty
+	// and is far below any target that can be met.
+	if header.Bits>>24 < 3 {
+		return errors.Wrapf(ErrInvalidTarget, "bits 0x%08x", header.Bits)
+	}
+
 	if !repo.disableDifficulty && !header.WorkIsValid() {
 		return ErrNotEnoughWork
 	}
